@@ -107,3 +107,31 @@ Definition strorder_ok (q1 q2 : node) (sg : Z) (s1 s2 : list Z) : bool :=
 (** obs = [w, w2]: w2 = NewPath(parse(PathStr w) << (h - len), len, h) is the word again *)
 Definition strparse_ok (h : Z) (q : node) (w w2 : Z) : bool :=
   (w =? enc (Z.to_nat h) q) && (w2 =? w).
+
+(** * sessions: PathStr called many times in one process (hidden-state mutants:
+    memo tables, bounded caches, lock-free "last result" words).  PathStr is a
+    pure function of the word: whatever was rendered before, or is being rendered
+    concurrently, every call returns the text of its own node. *)
+
+(** digest of a list of rendered strings (position-weighted, mod 2^64): the compact
+    observation of a bulk session *)
+Fixpoint digest_acc (i acc : Z) (ss : list (list Z)) : Z :=
+  match ss with
+  | [] => acc
+  | s :: t => digest_acc (i + 1) (acc + (parse_bin s + 1) * (zlen s + 1) * i) t
+  end.
+Definition digest (ss : list (list Z)) : Z := digest_acc 1 0 ss mod 2 ^ 64.
+
+(** the nodes of a segment (l, start, count): the l-bit prefixes start, start+1, ... *)
+Fixpoint zrange (n : nat) (x : Z) : list Z :=
+  match n with O => [] | S k => x :: zrange k (x + 1) end.
+Definition seg_nodes (l start count : Z) : list node :=
+  map (node_of (Z.to_nat l)) (zrange (Z.to_nat count) start).
+
+(** a bulk session: segments (h, l, start, count); observed: the digest of all the texts in
+    order, and the texts of the first K nodes rendered AGAIN after the bulk *)
+Definition bulk_nodes (segs : list (Z * Z * Z * Z)) : list node :=
+  flat_map (fun s => match s with (_, l, start, count) => seg_nodes l start count end) segs.
+Definition bulk_spec (segs : list (Z * Z * Z * Z)) (K : Z) : Z * list (list Z) :=
+  let ss := map node_str (bulk_nodes segs) in
+  (digest ss, firstn (Z.to_nat K) ss).
